@@ -11,7 +11,7 @@ def main():
             mod = importlib.import_module(name)
         except ModuleNotFoundError:
             continue
-        mod.generate()
+        mod.write()
 
 if __name__ == "__main__":
     main()
